@@ -470,6 +470,17 @@ pub fn fit_header_field<T: std::convert::TryFrom<i64>>(
     )))
 }
 
+/// In formats whose end-of-script marker is an instruction with opcode -1, a real instruction cannot
+/// have opcode 65535: it would be read back as the end of the script.
+pub fn reject_terminal_opcode(emitter: &dyn Emitter, instr: &RawInstr) -> Result<(), crate::error::ErrorReported> {
+    if instr.opcode == 0xFFFF {
+        return Err(emitter.as_sized().emit(error!(
+            "ins_{} cannot be written in this format: opcode 65535 (-1) marks the end of a script", instr.opcode,
+        )));
+    }
+    Ok(())
+}
+
 /// An implementation of [`LanguageHooks`] and [`InstrFormat`] for testing the raising
 /// and lowering phases of compilation.
 #[derive(Debug, Clone)]
